@@ -18,7 +18,7 @@ LEVEL = "exploration"
 RULE = ("cases = every ordered sequence of 1..K distinct rules over an 18-rule alphabet plus every sequence of K+1 rules over its 12 core rules (K=3 quick, 4 thorough) "
         "(priority unset/0/10/90; 1 or 2 pattern functions; constraint kinds none/amount/amount+month/source; short/long patterns; "
         "subcategory set/unset; one tag-only rule; exact-tie pairs (contains vs regex with equal key, amount vs source constraint)); "
-        "each on 18 transactions via engine.match and normalize_merchant in most_specific mode. "
+        "each on 30 transactions via engine.match and normalize_merchant in most_specific mode; plus a legacy-CSV family in most_specific mode (library and `tally up --migrate`). "
         "non-trivial = file with >=2 categorising rules true for one transaction; sequences are distinct by construction")
 ASSUMPTIONS = ["rank key is read from the AST: (priority, #calls of contains/regex/normalized/startswith/fuzzy/anyof, #distinct constraint kinds among "
                "amount/date/month/year/day/weekday/source/field.*, total length of string literals passed to pattern functions); the alphabet holds only "
